@@ -32,10 +32,10 @@ import (
 
 var out = gen.NewOut()
 
-// the variant of ProcWalletSetPasswd the Lean driver is told to model: the code as it is in /repo.
-// (VERIF_C38_VARIANT=verifyfirst|repaired lets a proposed repair of /repo be checked against the matching model
-// variant before this default is switched.)
-var modelVariant = "current"
+// the variant of ProcWalletSetPasswd the Lean driver is told to model: `code` = /repo as it is (since fd9f097 the
+// password change never touches the lock flag).  VERIF_C38_VARIANT=old|oldverifyfirst selects the model of the
+// older code, to replay the regression witnesses on an old tree.
+var modelVariant = "code"
 
 const (
 	blockWait = 300 * time.Millisecond // only for calls the scenario EXPECTS to block
@@ -794,6 +794,14 @@ func raceLostLock(w *world, r *gen.Rand, attempts int) {
 		atomic.StoreInt32(&jitter, int32(r.Intn(400)))
 		atomic.StoreInt32(&sig, 0)
 		atomic.StoreInt32(&phase, 1)
+		want := types.ErrVerifyOldpasswdFail
+		if k%2 == 1 {
+			// every other attempt: a successful change (right old password, same new password)
+			req = &types.ReqWalletSetPasswd{OldPass: w.pw, NewPass: w.pw}
+			want = nil
+		} else {
+			req = &types.ReqWalletSetPasswd{OldPass: "wrong" + w.pw, NewPass: "verifpassX1"}
+		}
 		err := w.e.w.ProcWalletSetPasswd(req)
 		var lerr error
 		select {
@@ -804,14 +812,14 @@ func raceLostLock(w *world, r *gen.Rand, attempts int) {
 			return
 		}
 		atomic.StoreInt32(&phase, 0)
-		if err != types.ErrVerifyOldpasswdFail || lerr != nil {
+		if err != want || lerr != nil {
 			out.Note(fmt.Sprintf("raceLostLock: setpasswd=%s lock=%s", errName(err), errName(lerr)))
 		}
 		if !w.e.w.IsWalletLocked() {
 			hits++
 			k0, derr := w.e.w.ProcDumpPrivkey(w.addrs[0])
 			if sample == "" {
-				sample = fmt.Sprintf("attempt %d: ProcWalletUnLock ok; ProcWalletSetPasswd(wrong old) = %s ‖ ProcWalletLock = %s; afterwards IsWalletLocked()=false, ProcDumpPrivkey returns key=%v err=%s",
+				sample = fmt.Sprintf("attempt %d: ProcWalletUnLock ok; ProcWalletSetPasswd = %s ‖ ProcWalletLock = %s; afterwards IsWalletLocked()=false, ProcDumpPrivkey returns key=%v err=%s",
 					k, errName(err), errName(lerr), derr == nil && k0 == w.keys[w.addrs[0]], errName(derr))
 			}
 			w.e.w.ProcWalletLock()
@@ -822,7 +830,7 @@ func raceLostLock(w *world, r *gen.Rand, attempts int) {
 	out.Stat("race_lostlock_hits", int64(hits))
 	if hits > 0 {
 		out.Pred("C38|ProcWalletSetPasswd|lock-lost-wallet-stays-unlocked-after-lock",
-			fmt.Sprintf("%d of %d attempts: a completed ProcWalletLock concurrent with a FAILING ProcWalletSetPasswd left the wallet unlocked; %s", hits, attempts, sample))
+			fmt.Sprintf("%d of %d attempts: a completed ProcWalletLock concurrent with a ProcWalletSetPasswd (failing or successful) left the wallet unlocked; %s", hits, attempts, sample))
 	}
 }
 
@@ -1022,7 +1030,7 @@ func main() {
 	}
 	os.MkdirAll(tmpRoot, 0o755)
 	r := gen.New(gen.Seed())
-	if v := os.Getenv("VERIF_C38_VARIANT"); v == "verifyfirst" || v == "repaired" || v == "current" {
+	if v := os.Getenv("VERIF_C38_VARIANT"); v == "old" || v == "oldverifyfirst" || v == "code" {
 		modelVariant = v
 	}
 	out.Op("variant "+modelVariant, "ok")
